@@ -81,8 +81,9 @@ impl<T> RawTable<T> {
         if item.in_main {
             self.table.erase(item.bucket);
         } else if let Some(ref mut lo) = self.leftovers {
-            lo.items.reflect_remove(&item.bucket);
+            lo.before_remove(&item.bucket);
             lo.table.erase(item.bucket);
+            lo.after_remove();
         } else {
             unreachable!("invalid bucket state");
         }
@@ -94,8 +95,9 @@ impl<T> RawTable<T> {
         if item.in_main {
             self.table.remove(item.bucket).0
         } else if let Some(ref mut lo) = self.leftovers {
-            lo.items.reflect_remove(&item.bucket);
+            lo.before_remove(&item.bucket);
             let (v, _) = lo.table.remove(item.bucket);
+            lo.after_remove();
 
             if lo.table.len() == 0 {
                 let _ = self.leftovers.take();
@@ -308,12 +310,14 @@ impl<T> RawTable<T> {
             // `reflect_remove`'s contract), and before `f` runs, since `f` may panic after the
             // element has already been taken out of the table.
             let before = lo.items.clone();
-            lo.items.reflect_remove(&bucket.bucket);
+            lo.before_remove(&bucket.bucket);
             let kept = lo.table.replace_bucket_with(bucket.bucket, f);
             if kept {
                 // The element is back in the same slot with the same control byte, so the
                 // iterator as it was before the removal is exactly right again.
                 lo.items = before;
+            } else {
+                lo.after_remove();
             }
             kept
         } else {
@@ -596,6 +600,32 @@ struct OldTable<T> {
     // We cache an iterator over the old table's buckets so we don't need to do a linear search
     // across buckets we know are empty each time we want to move more items.
     items: raw::RawIter<T>,
+}
+
+impl<T> OldTable<T> {
+    /// Keeps the cached iterator in sync with the removal of `bucket` from `self.table`.
+    ///
+    /// Must be called _before_ the removal, and be followed by `after_remove`.
+    #[cfg_attr(feature = "inline-more", inline)]
+    unsafe fn before_remove(&mut self, bucket: &raw::Bucket<T>) {
+        if mem::size_of::<T>() == 0 {
+            // `reflect_remove` locates the bucket by pointer arithmetic, which is meaningless
+            // (and panics) for zero-sized elements. Park the cached iterator on an empty table
+            // while the removal happens; `after_remove` re-creates it.
+            self.items = raw::RawTable::new().iter();
+        } else {
+            self.items.reflect_remove(bucket);
+        }
+    }
+
+    /// See `before_remove`.
+    #[cfg_attr(feature = "inline-more", inline)]
+    unsafe fn after_remove(&mut self) {
+        if mem::size_of::<T>() == 0 {
+            // Everything still in the old table is yet to be moved.
+            self.items = self.table.iter();
+        }
+    }
 }
 
 /// Iterator which returns a raw pointer to every full bucket in the table.
